@@ -247,10 +247,10 @@ def check_gen(case, rec):
     if not gg.is_convex_float(poly) or not og.is_simple([og._F(v) for v in poly]) or min_width(poly) < 1.3 * s:
         rec.cls("outline_rejected(skipped)")
         return
-    nogo = _nogo_polys(case)
+    nogo = _nogo_polys(dict(case, poly=poly))
     rot = case["rot_deg"] * math.pi / 180.0
     per = case.get("perimeter")
-    feats = features(case, nogo)
+    feats = features(dict(case, poly=poly), nogo)  # of the outline actually handed over (rounded for int-typed cases)
     try:
         pts, used = guarded(_generate, case, ipoly if ipoly is not None else poly, nogo, s, rot, per, what="rowwise generation")
         _gen_oracles(case, rec, poly, nogo, s, rot, per, pts, used)
